@@ -128,7 +128,14 @@ PCallOK(c) == PReplay(c.cmds, 1, PInit, DevSet)
 AuthOK(c) == AReplay([allowed |-> SetOfSeq(c.allowed), sockUid |-> c.sockUid, serverUid |-> c.serverUid, sockCanReadKeyring |-> TRUE],
                      c.cmds, 1, AInit)
 
-CaseOK(c) == CASE c.k = "auth" -> AuthOK(c) [] c.k = "otree" -> OTreeOK(c) [] c.k = "pcall" -> PCallOK(c) [] c.k = "build" -> BuildOK(c) [] c.k = "edit" -> EditOK(c) [] c.k = "syn" -> SynOK(c) [] c.k = "dem" -> DemOK(c) [] c.k = "chunk" -> ChunkOK(c)
+\* ---- the activation helper's validation chain (C19): exit code, and the argument vector it executed ----
+H == INSTANCE HelperOps
+HelperOK(c) == LET o == H!HelperOutcome(c.name, c.dirs, LAMBDA p : p \in SetOfSeq(c.execs)) IN
+               /\ c.code = o.code
+               /\ (o.code = 0 => c.ran = 1 /\ c.argv = o.argv)
+               /\ (o.code # 0 => c.ran = 0)
+
+CaseOK(c) == CASE c.k = "helper" -> HelperOK(c) [] c.k = "auth" -> AuthOK(c) [] c.k = "otree" -> OTreeOK(c) [] c.k = "pcall" -> PCallOK(c) [] c.k = "build" -> BuildOK(c) [] c.k = "edit" -> EditOK(c) [] c.k = "syn" -> SynOK(c) [] c.k = "dem" -> DemOK(c) [] c.k = "chunk" -> ChunkOK(c)
 BadCases == {i \in 1..Len(Log) : ~CaseOK(Log[i])}
 \* evaluated in Next (worker thread: honours -Xss), not in Init (main thread)
 Init == x = 0
